@@ -375,6 +375,11 @@ pub fn vp8_read_coefficients(
     crate::vp8::verif_read_coefficients(data, probs, plane, calls)
 }
 
+/// The crate's default token probabilities of one plane, flattened (band, context, node).
+pub fn default_coeff_probs(plane: usize) -> Vec<u8> {
+    crate::vp8::verif_default_coeff_probs(plane)
+}
+
 /// One intra predictor of vp8.rs on a caller-supplied workspace (see `vp8::verif_predict` for `kind`).
 #[allow(clippy::too_many_arguments)]
 pub fn vp8_predict(
